@@ -865,6 +865,8 @@ where
         // If not storing session state, clear QoS2 states and release publish-related packet IDs
         if !self.need_store {
             self.qos2_publish_handled.clear();
+            // The session ends here: stored packets go with the packet ids released below
+            self.store.clear();
 
             // Release packet IDs for PUBACK
             for packet_id in self.pid_puback.drain() {
